@@ -86,7 +86,7 @@ func runC04(c *Ctx) {
 	defer func() { runChildJobs(c, jobs) }()
 	for i := 0; i < n; i++ {
 		fam := fams[i%len(fams)]
-		if i%3 == 1 {
+		if c.Coin(0.4) {
 			// cycles through parameters, responses and path items (such documents have no meaning, but expanding
 			// them must still terminate)
 			fam.opts.Elements, fam.opts.ElementCycles = true, true
@@ -118,7 +118,7 @@ func runC04(c *Ctx) {
 		}
 		sort.Strings(refused)
 		spec0 := entryCall{Entry: "spec", Skip: o.Skip, Cont: o.Continue, Abs: o.Absolute, Refuse: refused}
-		if strings.HasPrefix(w2.Root, "http://h.example/") && i%2 == 0 {
+		if strings.HasPrefix(w2.Root, "http://h.example/") && c.Coin(0.7) {
 			// an equivalent, non-canonical spelling of an http root location: upper-case host, explicit default port
 			spec0.Base = "HTTP://H.Example:80/" + strings.TrimPrefix(w2.Root, "http://h.example/")
 		}
